@@ -55,10 +55,39 @@ def make_seq(sci, oci, n_listeners=1):
     return AObj(sci, {"listeners": list(obs)}, name="seq"), obs
 
 
+def _evalrf(rf, point):
+    from fractions import Fraction
+
+    def ev(poly):
+        tot = Fraction(0)
+        for mono, c in poly.terms.items():
+            t = Fraction(c)
+            for var, e in mono:
+                t *= Fraction(point(var)) ** e
+            tot += t
+        return tot
+    return ev(rf.num) / ev(rf.den)
+
+
 def same_val(it, a, b):
     if isinstance(a, RatFun) or isinstance(b, RatFun):
         ra, rb = RatFun.of(a), RatFun.of(b)
-        return ra is not None and rb is not None and ra.same(rb)
+        if ra is None or rb is None:
+            return False
+        if ra.same(rb):
+            return True
+        # coefficients that went through float arithmetic in the code (4.0 / 12 ...): equal up to rounding at two
+        # sample points of the symbolic tempi
+        for seed in (3, 7):
+            names = sorted({v for rf in (ra, rb) for poly in (rf.num, rf.den) for mono in poly.terms for v, _e in mono})
+            pt = {n: 37 + seed * (i + 1) * 11 for i, n in enumerate(names)}
+            try:
+                x, y = _evalrf(ra, pt.get), _evalrf(rb, pt.get)
+            except ZeroDivisionError:
+                return False
+            if abs(x - y) > 1e-9 * max(abs(x), abs(y), 1e-30):
+                return False
+        return True
     la, lb = (Lin.of(a) if not isinstance(a, (str, AObj)) and a is not None else None), (Lin.of(b) if not isinstance(b, (str, AObj)) and b is not None else None)
     if la is not None and lb is not None:
         lo, hi = it.lin_interval(la - lb)
@@ -374,12 +403,12 @@ def rule_bars(ctx):
     ctx.check(ok, R, "play_Track", ft.where(), "Sequencer.play_Track(<2 bars>)", why)
 
 
-def build_bar_fixed(repo, kinds, durs, tag):
+def build_bar_fixed(repo, kinds, durs, tag, length=1.0):
     """A full bar with concrete beat positions/durations (the scheduler does float arithmetic on them); every Note has
     a channel and a velocity of its own (symbolic here), which take precedence over the bar's channel."""
     from fractions import Fraction
     nci, barci = repo.mod(NC).cls("NoteContainer"), repo.mod(BAR).cls("Bar")
-    entries, desc, at = [], [], Fraction(0)
+    entries, desc, at, fbeat = [], [], Fraction(0), 0.0
     ids = itertools.count((hash(tag) % 900 + 50) * 10)
     for ei, (k, d) in enumerate(zip(kinds, durs)):
         notes = [note_stub(repo, next(ids)) for _ in range(KINDS[k])]
@@ -388,10 +417,11 @@ def build_bar_fixed(repo, kinds, durs, tag):
         if k == "T2":
             bpm = RatFun.var("bpm_%s%d" % (tag, ei))
             content.attrs["bpm"] = bpm
-        entries.append([float(at), d, content])
+        entries.append([fbeat, d, content])
         desc.append((k, d, notes, bpm, content))
         at += Fraction(1, d)
-    return AObj(barci, {"bar": entries, "length": 1.0, "current_beat": 1.0}, name="bar" + tag), desc
+        fbeat += 1.0 / d  # the way Bar.place_notes advances current_beat
+    return AObj(barci, {"bar": entries, "length": length, "current_beat": fbeat}, name="bar" + tag), desc
 
 
 def model_parallel(descs, channels, bpm):
@@ -501,14 +531,21 @@ def rule_unequal_rhythms(ctx):
         ("half-full bars", [["N1", "N1"], ["N2"]], [[4, 4], [2]]),
         ("single half-full bar", [["N1", "R", "N1"]], [[4, 8, 8]]),
         ("first bar shorter", [["N1"], ["N1", "N1", "N1"]], [[4], [4, 4, 4]]),
+        # tuplets against binary values: the beat sums of the two bars are rounded differently in floating point
+        ("triplets against eighths (2/4)", [["N1", "N1", "N1"], ["N1", "N1", "N1"]], [[12, 6, 4], [8, 4, 8]], 0.5),
+        ("eighths against triplets (2/4)", [["N1", "N1", "N1"], ["N1", "N1", "N1"]], [[8, 8, 4], [12, 6, 4]], 0.5),
+        ("triplet figure against quarters", [["N1"] * 6, ["N1"] * 4], [[4, 12, 12, 12, 4, 4], [4, 4, 4, 4]]),
+        ("quintuplets against a half and quarters", [["N1"] * 7, ["N1", "N1", "N1"]], [[10, 10, 10, 10, 10, 4, 4], [2, 4, 4]]),
     ]
-    for label, kinds_per_bar, durs_per_bar in shapes:
+    for shape in shapes:
+        label, kinds_per_bar, durs_per_bar = shape[:3]
+        blen = shape[3] if len(shape) > 3 else 1.0
         bpm0 = RatFun.var("bpm")
         channels = [3 + i for i in range(len(kinds_per_bar))]
 
         def go(it):
             seq, obs = make_seq(sci, oci)
-            built = [build_bar_fixed(repo, kinds, durs, "u%d" % i) for i, (kinds, durs) in enumerate(zip(kinds_per_bar, durs_per_bar))]
+            built = [build_bar_fixed(repo, kinds, durs, "u%d" % i, blen) for i, (kinds, durs) in enumerate(zip(kinds_per_bar, durs_per_bar))]
             return it.call_function(f, [seq, [b for b, _ in built], list(channels), bpm0], {}), [d for _, d in built]
         try:
             p = explore(lambda ch: Interp(repo, ch, summaries=summ, max_depth=30), go)
